@@ -19,7 +19,9 @@ def region(rng, shape, unit):
     u = UNITS[unit]
     n = shape["nodes"]
     out = {}
-    if shape["oil"] == "PVDO":
+    if shape["oil"] == "PVCDO":
+        out["oil"] = {"kind": "PVCDO", "row": [rng.uniform(100, 300) * u["p"], rng.uniform(1.0, 1.4), rng.uniform(5e-5, 2e-4) / u["p"], rng.uniform(0.3, 3.0), rng.uniform(0, 1e-4) / u["p"]]}
+    elif shape["oil"] == "PVDO":
         ps = inc(rng, n, 20, 400)
         B = sorted((rng.uniform(1.0, 1.4) for _ in range(n)), reverse=True)
         B = [b - 0.003 * i for i, b in enumerate(B)]
@@ -81,7 +83,10 @@ def deck(unit, regions):
         L.append("VAPOIL")
     L += [unit, "TABDIMS", " 1 %d 30 30 /" % nr, "START", " 1 'JAN' 2020 /", "GRID", "DX", " 4*100 /", "DY", " 4*100 /", "DZ", " 4*10 /",
           "TOPS", " 4*2000 /", "PORO", " 4*0.2 /", "PERMX", " 4*100 /", "PERMY", " 4*100 /", "PERMZ", " 4*10 /", "PROPS"]
-    if regions[0]["oil"]["kind"] == "PVDO":
+    if regions[0]["oil"]["kind"] == "PVCDO":
+        L.append("PVCDO")
+        L += [" " + " ".join(g(x) for x in r["oil"]["row"]) + " /" for r in regions]
+    elif regions[0]["oil"]["kind"] == "PVDO":
         L.append("PVDO")
         for r in regions:
             L += [" " + " ".join(g(x) for x in row) for row in r["oil"]["rows"]] + ["/"]
